@@ -62,3 +62,20 @@ claim("C13", "static analysis: sibling-table agreement (SSA map literals + SCCP 
   "Decides that the three copies of the justification table (validator, full validator, pmsg inference) agree with the specification and each other, that FullyValidateMessage's accept is unreachable on a malformed chain, key/chain mismatch, irrelevance, zero-key violations or a justification for a different value/phase, that stripping replaces exactly what completion restores on copies, that completion binds by (instance, announced key) and the host routes completed/buffered messages through one-shot/full validation, that MarshalForSigning delegates with Value.Key(), plus the partial-path validator rules shared with C05 (cache keys include the announced key / verified key) (C13.R1–R9). Structural necessary conditions; extensional equality of the two paths on all inputs is not decided.",
   "AS2 signatures sound; trusts go/types, go/ssa, checker/c13.go and checker/c05.go.",
   "DESIGN.md §4 C13")
+
+claim("C01", "static analysis: guard dominance + who-may-call + SCCP decision tables (PREPARE exit, CONVERGE filter) on gpbft; shared quorum normal form and validator rules",
+  "Decides structural necessary conditions of agreement on every path/call site/table row: one vote per sender per tally; decision only from a strong non-bottom COMMIT quorum in its round or a validated DECIDE, termination only from a strong DECIDE quorum; the complete PREPARE-exit table and COMMIT justification selection (no COMMIT for a value without PREPARE evidence); the CONVERGE filter's table; messages checked (instance, supplemental data, base) before any tally is touched and only validator-issued tokens reach the state machine; exact ⌈2/3⌉ threshold with operands of one table; validator cache/justification rules (C01.R1–R7). Agreement itself over all schedules and adversaries is NOT decided.",
+  "AS2 signatures sound; trusts go/types, go/ssa, checker/sccp.go, spec tables in checker/gpbft_rules*.go.",
+  "DESIGN.md §4 C01")
+claim("C02", "static analysis: guard dominance, field-writer/provenance rules, CONVERGE filter table on gpbft",
+  "Decides that foreign-instance/supplement/base messages never touch a tally, who writes the proposal and from which sources, that the candidate set grows only through QUALITY quorums, the filter, COMMIT sways and PREPARE-justified skips, the CONVERGE filter's table, that bottom is never decided, and that the host chain is non-empty, truncated and validated before an instance exists (C02.R1–R6). Necessary structural conditions; 'prefix of an honest input' over executions is not decided.",
+  "AS2 signatures sound; trusts go/types, go/ssa, checker/gpbft_rules*.go.",
+  "DESIGN.md §4 C02")
+claim("C03", "static analysis: argument provenance at every buildJustification site, struct-literal field binding, guard dominance on certificate construction and storage",
+  "Decides that each justification aggregates the strong quorum of the tally of the claimed phase/round for the claimed value's key, that DECIDE is round 0, the justification's field bindings and that none is produced when aggregation fails, the minimal-sorted-prefix shape of FindStrongQuorumFor, that the host validates the certificate against its own committee table before storing it, NewFinalityCertificate's guards and field copies, and the shared cache rules that keep forged messages out of the DECIDE tally (C03.R1–R7). Necessary structural conditions; that the aggregate verifies is cryptography.",
+  "AS2 signatures sound; trusts go/types, go/ssa, checker/gpbft_rules2.go.",
+  "DESIGN.md §4 C03")
+claim("C07", "static analysis: phase-writer ownership and predecessor guards, ordering dominance per transition, SCCP decision tables (PREPARE exit 256 rows, COMMIT handling 512 rows), loop-shape rule, panic containment",
+  "Decides that only the seven transition functions move the phase (each to its own constant, from its predecessor), rounds only increase, each transition stores the phase, notifies progress and broadcasts exactly once its own phase at the right round and arms its alarm; emitted shapes; zero-power participants emit nothing; round-0 PREPARE value provenance; the PREPARE-exit and COMMIT-handling tables equal the specification; every quorum-backed prefix becomes a candidate (full-range loop); sways need PREPARE proof; exported entry points recover panics (C07.R1–R9). Necessary structural conditions; one-message-per-slot across re-entries is enforced at run time (C12).",
+  "AS4 DECIDE messages have round 0; trusts go/types, go/ssa, checker/sccp.go, spec tables in checker/gpbft_rules2.go.",
+  "DESIGN.md §4 C07")
